@@ -94,6 +94,15 @@ func (s *vStoreSys) Enabled() []vOp {
 		for _, id := range ids {
 			ops = append(ops, vOp{K: "Remove", A: id})
 		}
+		// update = remove + add: an acknowledged re-add of a removed id must be visible again
+		rids := []int{}
+		for id := range s.removed {
+			rids = append(rids, int(id))
+		}
+		sort.Ints(rids)
+		for _, id := range rids {
+			ops = append(ops, vOp{K: "AddWithID", A: id, B: (id + 1) % 3, C: 1})
+		}
 		ops = append(ops, vOp{K: "Flush"}, vOp{K: "Rotate"}, vOp{K: "Drain"}, vOp{K: "Compact"}, vOp{K: "Evict"}, vOp{K: "Search", B: 0})
 		if len(s.st.segmentManager.segments) >= 1 {
 			ops = append(ops, vOp{K: "Tick"})
@@ -136,9 +145,11 @@ func (s *vStoreSys) Apply(op vOp, hist []vOp, check bool) {
 				err = s.st.AddWithID(id, vCopyVec(d.Vec), d.Text, vCloneMeta(d.Meta))
 			}
 		})
-		s.nAdd++
-		if op.K == "AddWithID" {
-			s.nextID++
+		if op.C == 0 {
+			s.nAdd++
+			if op.K == "AddWithID" {
+				s.nextID++
+			}
 		}
 		if s.env.dead == "" {
 			if err != nil {
